@@ -636,7 +636,11 @@ func (s *State) convert(w *Worker, x Value, from, to types.Type) Value {
 		if tw, ts, ok := intInfo(ut); ok {
 			f, ok := x.(float64)
 			if !ok {
-				s.unsupported("symbolic float->int")
+				t := x.(*Term)
+				if fw == 32 {
+					t = mkUn(OF32to64, 64, t)
+				}
+				f = s.floatClassSplit(w, t) // class split + one finite representative
 			}
 			if ts {
 				return uint64(int64(f)) & mask(tw)
